@@ -45,6 +45,7 @@ AsmOut(progs, tag) ==
       \* the writer's own obligations (RelocWriter!Faithful) and the two situations in which asmcode.c misses them
       faithful |-> [i \in 1..Len(progs) |-> Faithful(progs[i], W[i].out)],
       lost |-> [i \in 1..Len(progs) |-> W[i].lost], split |-> [i \in 1..Len(progs) |-> W[i].split],
+      cancel |-> [i \in 1..Len(progs) |-> Cancels(progs[i])], leak |-> [i \in 1..Len(progs) |-> Leaks(progs[i])],
       plist |-> [i \in 1..Len(progs) |-> PListRelocRows(W[i].out)]]
 
 \* ---- families -----------------------------------------------------------------------------------------------
@@ -95,10 +96,17 @@ FamInit == \E q \in Families : c = [progs |-> q[2], tag |-> q[1]] /\ s = "gen"
 FamNext == s = "gen" /\ PrintT(<<"TR", ToJson(AsmOut(c.progs, c.tag))>>) /\ s' = "printed" /\ UNCHANGED c
 FamSpec == FamInit /\ [][FamNext]_vars
 \* every family member is a program the assembler accepts, the operational model agrees with Link_decl where that is definite,
-\* and the writer is faithful unless one of its two named situations occurs
+\* and the writer is faithful unless one of its four named situations occurs
 FamSelf == s = "gen" => LET o == AsmOut(c.progs, c.tag) IN
              /\ o.accepted /\ o.allowed
-             /\ \A i \in 1..Len(c.progs) : o.faithful[i] \/ o.lost[i] \/ o.split[i]
+             /\ \A i \in 1..Len(c.progs) : o.faithful[i] \/ o.lost[i] \/ o.split[i] \/ o.cancel[i] \/ o.leak[i]
+
+\* ---- the real record limit: 65533 data bytes, then a 3-byte instruction with a relocation (asmcode.c WriteBytes splits
+\* the record in front of the instruction; its patch entry is already queued and goes to the record that just ended)
+BigUser == AbsMod(0, <<DB([i \in 1..65533 |-> i % 251]), REF16(2, <<Ga>>, 0)>>, <<Ga>>, <<>>)
+BigInit == c = [progs |-> <<DefGa(4660), BigUser>>, tag |-> "record-limit"] /\ s = "gen"
+BigSpec == BigInit /\ [][FamNext]_vars
+BigSelf == s = "gen" => LET o == AsmOut(c.progs, c.tag) IN o.accepted /\ o.split[2] /\ ~o.faithful[2] /\ ~o.def
 
 \* ---- random wide link sets ----------------------------------------------------------------------------------
 Globals == {Ga, Gb, Gc}
@@ -119,6 +127,9 @@ Finish(m, kind, body) ==
       exts == SetToSeq((used \cap Globals) \ defd)
       exps == SetToSeq(defd \cap Globals)
   IN IF kind = "rel" THEN RelMod(b3, exts, exps) ELSE AbsMod(256 * m, b3, exts, exps)
+NamesOf(ps, op) == UNION {UNION {{ps[i][j].names[k] : k \in 1..Len(ps[i][j].names)} : j \in {q \in 1..Len(ps[i]) : ps[i][q].op = op}} : i \in 1..Len(ps)}
+\* a last module that defines what is still undefined (half of the random link sets get one)
+Closer(m, us) == AbsMod(256 * m, FoldLeft(LAMBDA acc, u : acc \o <<LAB(u), DB(<<m>>)>>, <<DB(<<m, m>>)>>, us), <<>>, us)
 SimInit == c = [bodies |-> <<<<>>>>, kinds |-> <<"abs">>, progs |-> <<>>, tag |-> "sim"] /\ s = 0
 SimNext ==
   /\ s \in 0..11 /\ s' = s + 1
@@ -126,7 +137,10 @@ SimNext ==
      IF s < 11 THEN
         \/ \E st \in SimStmts(n, c.bodies[n]) : Len(c.bodies[n]) < 6 /\ c' = [c EXCEPT !.bodies[n] = Append(@, st)]
         \/ \E k \in {"abs", "abs", "rel"} : n < 3 /\ c.bodies[n] # <<>> /\ c' = [c EXCEPT !.bodies = Append(@, <<>>), !.kinds = Append(@, k)]
-     ELSE c' = [c EXCEPT !.progs = [i \in 1..n |-> Finish(i, c.kinds[i], c.bodies[i])]]
+     ELSE \E close \in BOOLEAN :
+            LET ps == [i \in 1..n |-> Finish(i, c.kinds[i], c.bodies[i])]
+                U == NamesOf(ps, "extern") \ NamesOf(ps, "export")          \* referenced, exported by nobody
+            IN c' = [c EXCEPT !.progs = IF close /\ U # {} THEN Append(ps, Closer(n + 1, SetToSeq(U))) ELSE ps]
 SimSpec == SimInit /\ [][SimNext]_vars
 SimDump == (s = 12 /\ \A i \in 1..Len(c.progs) : Accepted(c.progs[i])) => PrintT(<<"BEH", ToJson(AsmOut(c.progs, "sim"))>>)
 =============================================================================
